@@ -23,6 +23,15 @@ Mirrors (sdk/src):
 A manifest store is abstracted to the list of its claims in the order `Store::verify_store`
 visits them (head = active claim), each claim to the facts the gating code looks at.
 Manifests are assumed valid (no validation failure aborts `verify_store`).
+
+`Store::is_valid_remote_url` (`url::Url::parse` + scheme test) is modelled on the bytes of the
+reference (`classify`): trimming of C0 controls / space, removal of tab / LF / CR, the scheme,
+the slashes of a special scheme, userinfo, host and port, incl. the forbidden host code points
+and the IPv4 number forms. Hosts that need the IPv6, percent-decoding or IDNA code of the `url`
+crate are classified `exoticHost`; for those (only) the verdict is the input `Asset.refUrlCrate`,
+which the harness computes with the `url` crate. Whether `http::Request::get(reference)` can be
+built (`fetch_remote_manifest` fails with `Error::HttpError` before any request otherwise) is the
+input `Asset.refUriOk`, computed by the harness with the `http` crate.
 -/
 namespace C2pa.C28
 
@@ -111,6 +120,11 @@ structure Asset where
   xmp : Option Url
   /-- the manifest store the referenced URL serves -/
   remote : Store
+  /-- oracle input: the `url` crate parses the reference as an http(s) URL. Consulted only when
+  the byte-level `classify` answers `exoticHost`. -/
+  refUrlCrate : Bool := true
+  /-- oracle input: `http::Request::get(reference).body(..)` succeeds (`http::Uri` accepts it) -/
+  refUriOk : Bool := true
   deriving DecidableEq, Repr
 
 /-- HTTP requests the SDK can issue, by issuing code path. -/
@@ -166,6 +180,7 @@ inductive Err
   | embeddedBroken
   | remoteManifestUrl (url : Url)
   | remoteManifestFetch
+  | httpRequest               -- `Error::HttpError`: `http::Request::get(url)` refused the reference
   | assertionEncoding
   | timestampAssertion
   | timestampSigner
@@ -181,15 +196,150 @@ inductive Res
 
 def lower (s : Url) : Url := s.map Char.toLower
 
-def httpPrefix : Url := ['h', 't', 't', 'p', ':', '/', '/']
-def httpsPrefix : Url := ['h', 't', 't', 'p', 's', ':', '/', '/']
+def httpS : Url := ['h', 't', 't', 'p']
+def httpsS : Url := ['h', 't', 't', 'p', 's']
 
-/-- `Store::is_valid_remote_url` for the URL forms of the protocol (`scheme://rest`, relative
-paths): parses and has scheme http or https. The `url` crate lower-cases the scheme and rejects
-an empty host. -/
-def validRemoteUrl (u : Url) : Bool :=
-  let l := lower u
-  (httpPrefix.isPrefixOf l && l.length > 7) || (httpsPrefix.isPrefixOf l && l.length > 8)
+/-- Byte-level reading of `url::Url::parse(reference)` followed by the scheme test. -/
+inductive UrlClass
+  | valid
+  | invalid
+  /-- scheme http/https and a non-empty authority, but the host needs the IPv6 parser, percent
+  decoding or IDNA processing: not decided here -/
+  | exoticHost
+  deriving DecidableEq, Repr
+
+def isC0Space (c : Char) : Bool := c.toNat ≤ 0x20
+def isTabNl (c : Char) : Bool := c == '\t' || c == '\n' || c == '\r'
+
+/-- `Input::new_trim_c0_control_and_space` (both ends) and the `Input` iterator, which skips
+tab, LF and CR wherever they occur -/
+def cleaned (u : Url) : Url :=
+  (((u.dropWhile isC0Space).reverse.dropWhile isC0Space).reverse).filter (fun c => !isTabNl c)
+
+def isSchemeChar (c : Char) : Bool := c.isAlphanum || c == '+' || c == '-' || c == '.'
+
+/-- `Parser::parse_scheme`: lower-cased scheme and the input after the colon; `none` = no scheme
+(`RelativeUrlWithoutBase`) -/
+def splitScheme (l : Url) : Option (Url × Url) :=
+  match l with
+  | [] => none
+  | c :: _ =>
+    if !c.isAlpha then none
+    else
+      match l.dropWhile isSchemeChar with
+      | ':' :: rest => some (lower (l.takeWhile isSchemeChar), rest)
+      | _ => none
+
+/-- special scheme: any run of `/` and `\` after the colon is skipped -/
+def isSlash (c : Char) : Bool := c == '/' || c == '\\'
+/-- end of the authority of a special scheme -/
+def isAuthEnd (c : Char) : Bool := c == '/' || c == '\\' || c == '?' || c == '#'
+
+/-- `parse_userinfo`: host and port start after the last `@` of the authority -/
+def afterLastAt (l : Url) : Url := (l.reverse.takeWhile (· != '@')).reverse
+
+/-- WHATWG forbidden domain code points (`idna::AsciiDenyList::URL`) -/
+def forbiddenHostChar (c : Char) : Bool :=
+  c.toNat ≤ 0x20 || c.toNat == 0x7f ||
+    ['%', '#', '/', ':', '<', '>', '?', '@', '[', '\\', ']', '^', '|'].contains c
+
+/-- split at every `.` (`str::split('.')`: n dots give n+1 parts) -/
+def splitDot : Url → List Url
+  | [] => [[]]
+  | c :: cs =>
+    match splitDot cs with
+    | [] => [[]]
+    | p :: ps => if c == '.' then [] :: p :: ps else (c :: p) :: ps
+
+def digitVal (c : Char) : Nat := (hexVal? c).getD 0
+def parseRadix (r : Nat) (l : Url) : Nat := l.foldl (fun acc c => acc * r + digitVal c) 0
+
+/-- `parse_ipv4number`: `none` = not a number; the value is unbounded here (the caller checks
+the `u32` overflow) -/
+def ipv4Number (l : Url) : Option Nat :=
+  if l.isEmpty then none
+  else
+    let rb : Nat × Url :=
+      match l with
+      | '0' :: 'x' :: t => (16, t)
+      | '0' :: 'X' :: t => (16, t)
+      | '0' :: c :: t => (8, c :: t)
+      | _ => (10, l)
+    if rb.2.isEmpty then some 0
+    else
+      let ok :=
+        if rb.1 == 8 then rb.2.all (fun c => '0' ≤ c && c ≤ '7')
+        else if rb.1 == 10 then rb.2.all Char.isDigit
+        else rb.2.all (fun c => (hexVal? c).isSome)
+      if ok then some (parseRadix rb.1 rb.2) else none
+
+/-- the last label, ignoring one trailing dot (`ends_in_a_number`) -/
+def lastLabel (h : Url) : Option Url :=
+  match (splitDot h).reverse with
+  | [] => none
+  | p :: rest => if p.isEmpty then rest.head? else some p
+
+def endsInNumber (h : Url) : Bool :=
+  match lastLabel h with
+  | none => false
+  | some l => (!l.isEmpty && l.all Char.isDigit) || (ipv4Number l).isSome
+
+/-- `parse_ipv4addr` succeeds -/
+def ipv4Ok (h : Url) : Bool :=
+  let parts0 := splitDot h
+  let parts := if parts0.getLast? == some [] then parts0.dropLast else parts0
+  if parts.length > 4 then false
+  else
+    match parts.mapM ipv4Number with
+    | none => false
+    | some nums =>
+      if nums.any (fun n => n ≥ 4294967296) then false
+      else
+        match nums.reverse with
+        | [] => false
+        | n :: others => n < 256 ^ (4 - others.length) && others.all (fun x => x ≤ 255)
+
+/-- hosts whose acceptance depends on code that is not modelled: non-ASCII bytes or a label with
+`--` in positions 3–4 (IDNA / Punycode), `%` (percent decoding), `[` (IPv6 literal) -/
+def exoticHost (h : Url) : Bool :=
+  h.any (fun c => c.toNat ≥ 0x80 || c == '%' || c == '[')
+    || (splitDot h).any (fun l => (l.drop 2).take 2 == ['-', '-'])
+
+/-- `Host::parse` for a plain ASCII host: not empty, no forbidden code point, and if it ends in
+a number it is an IPv4 address in one of the WHATWG notations -/
+def hostOk (h : Url) : Bool :=
+  !h.isEmpty && !h.any forbiddenHostChar && (!endsInNumber (lower h) || ipv4Ok (lower h))
+
+/-- `parse_port`: digits only up to the end of the authority, value at most 65535 (may be empty) -/
+def portOk (p : Url) : Bool := p.all Char.isDigit && parseRadix 10 p ≤ 65535
+
+/-- host-and-port part of the authority (after slashes and userinfo) of a cleaned input whose
+scheme has been split off -/
+def hostPort (rest : Url) : Url :=
+  afterLastAt ((rest.dropWhile isSlash).takeWhile (fun c => !isAuthEnd c))
+
+def classify (u : Url) : UrlClass :=
+  match splitScheme (cleaned u) with
+  | none => .invalid
+  | some (s, rest) =>
+    if s != httpS && s != httpsS then .invalid
+    else
+      let hp := hostPort rest
+      if hp.contains '[' then .exoticHost
+      else
+        let h := hp.takeWhile (· != ':')
+        let p := (hp.dropWhile (· != ':')).drop 1
+        if h.isEmpty then .invalid
+        else if exoticHost h then .exoticHost
+        else if hostOk h && portOk p then .valid
+        else .invalid
+
+/-- `Store::is_valid_remote_url(reference)` for the reference `u` of asset `a` -/
+def validRef (a : Asset) (u : Url) : Bool :=
+  match classify u with
+  | .valid => true
+  | .invalid => false
+  | .exoticHost => a.refUrlCrate
 
 /-- `Store::load_jumbf_from_stream` with `handle_remote_manifest` and `fetch_remote_manifest`. -/
 def loadJumbf (s : Settings) (env : Env) (a : Asset) : Except Err Store × List Req :=
@@ -200,11 +350,14 @@ def loadJumbf (s : Settings) (env : Env) (a : Asset) : Except Err Store × List 
     match a.xmp with
     | none => (.error .jumbfNotFound, [])
     | some u =>
-      if validRemoteUrl u then
+      if validRef a u then
         if s.remoteFetch then
-          match env.manifest with
-          | .ok => (.ok a.remote, [.manifest u])
-          | _ => (.error .remoteManifestFetch, [.manifest u])
+          -- `fetch_remote_manifest`: `http::Request::get(url).body(..)?` precedes the request
+          if a.refUriOk then
+            match env.manifest with
+            | .ok => (.ok a.remote, [.manifest u])
+            | _ => (.error .remoteManifestFetch, [.manifest u])
+          else (.error .httpRequest, [])
         else (.error (.remoteManifestUrl u), [])
       else (.error .jumbfNotFound, [])
 
@@ -309,6 +462,11 @@ structure Signer where
   stapledUsable : Bool
   /-- identity of the signing certificate -/
   cert : Nat
+  /-- the signer comes from the settings and `cawg_x509_signer.local.tsa_url` is set.
+  `CawgX509IdentitySigner::from_settings` discards that URL (`let _ = tsa_url`) and the identity
+  signature is produced by `RawSignerCoseSigner`, whose `TimeStampProvider` names no service:
+  no decision function looks at this field. -/
+  cawgTsa : Bool := false
   deriving DecidableEq, Repr
 
 def Ing.claims (i : Ing) : Store :=
@@ -457,7 +615,46 @@ def requiredGuards : List String := [
   "crypto/time_stamp/provider.rs::send_time_stamp_request:request-inside-if-let-Some-url",
   "Builder::sign:maybe_add_timestamp-inside-if-let-Some-tsa_url",
   "maybe_add_timestamp:early-return-when-disabled-and-no-labels",
-  "Manifest::from_store:identity-validation-inside-decode_identity_assertions"
+  "Manifest::from_store:identity-validation-inside-decode_identity_assertions",
+  "store.rs:check_ocsp_status-is-the-claim-level-wrapper"
+]
+
+/-- (what, file, enclosing fn): the reviewed places that decide the OCSP fetch policy or hand a
+time-stamp request to the signer.
+* `OcspFetchPolicy::FetchAllowed` is named only where `claim::check_ocsp_status` derives the
+  policy from `verify.ocsp_fetch` (guard `claim::check_ocsp_status:policy-from-ocsp_fetch`) and in
+  the `match fetch_policy` of `cose::check_ocsp_status`.
+* `check_ocsp_status` is called by the claim-level wrapper itself (the `cose` function), by
+  `Claim::verify_claim` and by `Store::get_ocsp_status` (both the claim-level wrapper: guard
+  `store.rs:check_ocsp_status-is-the-claim-level-wrapper`; in claim.rs the unqualified name is the
+  wrapper defined in that file).
+* `send_time_stamp_request` (the `TimeStampProvider` method) is called only by
+  `add_sigtst_header`; `send_timestamp_request` (the `Signer` method) only by the
+  `TimeStampProvider` impl of the signer wrappers in cose_sign.rs and by the two forwarding
+  signers (Box<dyn Signer> in signer.rs, `CawgX509IdentitySigner` in settings/signer.rs). -/
+def reviewedPolicySites : List (String × String × String) := [
+  ("OcspFetchPolicy::FetchAllowed", "claim.rs", "check_ocsp_status"),
+  ("OcspFetchPolicy::FetchAllowed", "crypto/cose/ocsp.rs", "check_ocsp_status"),
+  ("check_ocsp_status", "claim.rs", "check_ocsp_status"),
+  ("check_ocsp_status", "claim.rs", "verify_claim"),
+  ("check_ocsp_status", "store.rs", "get_ocsp_status"),
+  ("send_time_stamp_request", "crypto/cose/sigtst.rs", "add_sigtst_header"),
+  ("send_timestamp_request", "cose_sign.rs", "send_time_stamp_request"),
+  ("send_timestamp_request", "settings/signer.rs", "send_timestamp_request"),
+  ("send_timestamp_request", "signer.rs", "send_timestamp_request")
+]
+
+/-- (file, implementing type, overridden methods): the reviewed `impl TimeStampProvider` /
+`impl AsyncTimeStampProvider` blocks. The default `send_time_stamp_request` of the trait
+(crypto/time_stamp/provider.rs, a request on a fresh `Context::new()`) only does something for an
+implementor that names a service URL; the only implementors that do (the signer wrappers of
+cose_sign.rs) replace `send_time_stamp_request` by `Signer::send_timestamp_request`, i.e. the
+modelled `tsaSigner` request. `RawSignerCoseSigner` (CAWG X.509 identity signature) overrides
+nothing: it names no service. -/
+def reviewedTsProviders : List (String × String × List String) := [
+  ("cose_sign.rs", "AsyncSignerWrapper", ["send_time_stamp_request", "time_stamp_request_body", "time_stamp_request_headers", "time_stamp_service_url"]),
+  ("cose_sign.rs", "SignerWrapper", ["send_time_stamp_request", "time_stamp_request_body", "time_stamp_request_headers", "time_stamp_service_url"]),
+  ("crypto/cose/cose_signer.rs", "RawSignerCoseSigner", [])
 ]
 
 /-- the sink that issues each kind of request of the model -/
@@ -468,6 +665,12 @@ def SiteKind.of : ReqKind → SiteKind
   | .tsaAssertion => .timeStamp
   | .tsaSigner => .timeStamp
   | .didWeb => .didWeb
+
+def allReqKinds : List ReqKind := [.manifest, .ocspVerify, .ocspStatus, .tsaAssertion, .tsaSigner, .didWeb]
+
+/-- site kinds that no modelled operation reaches: the remote signer *is* an HTTP service the
+configuration names; the default transports are constructions, not requests -/
+def unmodelledKinds : List SiteKind := [.remoteSigner, .defaultTransport]
 
 /-- the reviewed kind of an inventoried (file, fn), if any -/
 def siteKind? (file fn : String) : Option SiteKind :=
@@ -506,13 +709,16 @@ def hexUrl (s : String) : Url :=
 
 def strHex (s : Url) : String := toHex (s.map (fun c => UInt8.ofNat c.toNat))
 
-/-- `<embedded>|<xmp>|<remote>|<parent><explicit>`; embedded = `-` absent, `!` broken, else claims -/
+/-- `<embedded>|<xmp>|<remote>|<parent><explicit>[<urlCrate><uriOk>]`; embedded = `-` absent, `!` broken, else claims -/
 def parseAsset (s : String) : Asset × Bool × Bool :=
   match s.splitOn "|" with
   | [e, x, r, f] =>
     ({ embedded := if e == "-" then .absent else if e == "!" then .broken else .store (parseStore e)
        xmp := if x == "-" then none else some (hexUrl x)
-       remote := parseStore r },
+       remote := parseStore r
+       -- flags 3 and 4 (optional, default 1): url-crate verdict, http-crate verdict
+       refUrlCrate := (f.toList.drop 2).take 1 != ['0']
+       refUriOk := (f.toList.drop 3).take 1 != ['0'] },
      f.toList.take 1 == ['1'], (f.toList.drop 1).take 1 == ['1'])
   | _ => ({ embedded := .absent, xmp := none, remote := [] }, false, false)
 
@@ -537,7 +743,8 @@ def parseSigner (toks : List String) : Signer :=
     responders := (field toks "sr").toNat!
     stapled := field toks "ss" != "0"
     stapledUsable := field toks "ss" == "2"
-    cert := (field toks "sc2").toNat! }
+    cert := (field toks "sc2").toNat!
+    cawgTsa := field toks "ctsa" == "1" }
 
 def Req.str : Req → String
   | .manifest u => "m:" ++ strHex (lower u)
@@ -555,6 +762,7 @@ def Err.str : Err → String
   | .embeddedBroken => "err:Embedded"
   | .remoteManifestUrl u => "err:RemoteManifestUrl:" ++ strHex u
   | .remoteManifestFetch => "err:RemoteManifestFetch"
+  | .httpRequest => "err:HttpError"
   | .assertionEncoding => "err:AssertionEncoding"
   | .timestampAssertion => "err:TimestampAssertion"
   | .timestampSigner => "err:TimestampSigner"
